@@ -191,6 +191,9 @@ def explore(cfg, eng, ctx):
                     eng.prefer.append(z3.And(data.vvalid[r][k], data.vt[r][k] == r + 1 + 3 * k))
         if data.wform in ("array", "pair"):
             eng.prefer += [b for b in data.wvalid]
+            if hasattr(data, "wsel"):
+                for r, (a, b) in enumerate(data.wsel):      # weights 1 and 3 alternating (never 0)
+                    eng.prefer += [a, b if r % 2 else z3.Not(b)]
         for d, per in enumerate(data.cats):
             for j, (sub, cs) in enumerate(sorted(per.items())):
                 for r, c_ in enumerate(cs):
